@@ -30,19 +30,39 @@ def fieldSelections (s : Schema) (d : QueryDoc) : Bool :=
     | .field _ nm _ _ _ _, some p => (fieldDefOn p nm).isSome
     | _, _ => true
 
+/-- the (unwrapped, resolved) type of a field node; `none` for other nodes and when the field or
+    its type is not determined -/
+def fieldNodeType (s : Schema) (t : TSel) : Option Definition :=
+  match t.sel with
+  | .field _ nm _ _ _ _ => (t.parent.bind (fieldDefOn · nm)).bind fun fd => s.type? fd.type.name
+  | _ => none
+
+def subSelectionOf : Selection → Selections
+  | .field _ _ _ _ sub _ => sub
+  | .inline _ _ sub _ => sub
+  | .spread .. => .nil
+
+/-- a leaf type takes no sub-selection, a composite type needs one -/
+def leafShapeOk (ft : Definition) (sub : Selections) : Bool :=
+  if isLeaf ft then sub.toList.isEmpty
+  else if isComposite ft then !sub.toList.isEmpty
+  else true
+
 /-- §5.3.3: a field of scalar or enum type has no sub-selection, a field of object, interface or
     union type has a non-empty one -/
 def leafFieldSelections (s : Schema) (d : QueryDoc) : Bool :=
   (docSels s d).all fun t =>
-    match t.sel with
-    | .field _ nm _ _ sub _ =>
-      (match (t.parent.bind (fieldDefOn · nm)).bind (fun fd => s.type? fd.type.name) with
-       | none => true
-       | some ft =>
-         if isLeaf ft then sub.toList.isEmpty
-         else if isComposite ft then !sub.toList.isEmpty
-         else true)
-    | _ => true
+    match fieldNodeType s t with
+    | none => true
+    | some ft => leafShapeOk ft (subSelectionOf t.sel)
+
+/-- auxiliary (true for every loaded schema, whose field types are output types): the resolved
+    type of every field node is a leaf or a composite type -/
+def fieldTypesAreOutputTypes (s : Schema) (d : QueryDoc) : Bool :=
+  (docSels s d).all fun t =>
+    match fieldNodeType s t with
+    | none => true
+    | some ft => isLeaf ft || isComposite ft
 
 /- ---------------- §5.3.2 Field selection merging ---------------- -/
 
